@@ -176,8 +176,10 @@ func ReaderDiscard(k int) Driver {
 					continue
 				}
 				b := make([]byte, k)
+				// k is 0 or 1, so ReadFull itself never produces ErrUnexpectedEOF: io.EOF means
+				// the message ended (empty message), anything else is the reader's error.
 				n, err := io.ReadFull(rd, b)
-				if err != nil && err != io.EOF && err != io.ErrUnexpectedEOF {
+				if err != nil && err != io.EOF {
 					res.Err = err
 					return
 				}
